@@ -503,6 +503,8 @@ pub fn run_write_script(version: u8, max_buf: Option<u32>, script: &[WOp], ctl: 
             let l = label(ctl);
             // result: Ok(()) / Err(io) of the API call, or None if the op was skipped
             let mut flush_ok_slot: Option<usize> = None;
+            // a growing set_len that returned Err: (stream name index, length before)
+            let mut grow_failed: Option<(usize, u64)> = None;
             let res: Option<std::io::Result<()>> = match op {
                 WOp::CreateStorage { name } => {
                     let n = *name as usize % WNAMES.len();
@@ -641,6 +643,9 @@ pub fn run_write_script(version: u8, max_buf: Option<u32>, script: &[WOp], ctl: 
                                     let cut = new.min(cur);
                                     let keep_below = if r.is_ok() { new } else { cut };
                                     h.accepted.retain(|&o, _| o < keep_below);
+                                    if r.is_err() && new > cur {
+                                        grow_failed = Some((h.name, cur));
+                                    }
                                     r
                                 }
                                 WOp::Read { n, .. } => {
@@ -748,6 +753,30 @@ pub fn run_write_script(version: u8, max_buf: Option<u32>, script: &[WOp], ctl: 
                 }
                 Some(Err(e)) => {
                     trace.push(format!("{:?} -> Err({:?}: {}) [attempt {}]{}", op, e.kind(), e, attempt, if fired_here { " [fault fired in this call]" } else { "" }));
+                    // C08's clause under faults: if the failed set_len made the stream longer
+                    // after all, the bytes gained must still read as zero
+                    if let Some((name, before)) = grow_failed {
+                        let enabled = {
+                            let mut g = ctl.lock().unwrap();
+                            let e = g.faults_enabled;
+                            g.faults_enabled = false;
+                            e
+                        };
+                        let got = guard("readback", || -> std::io::Result<Vec<u8>> {
+                            let mut f = c.open_stream(WNAMES[name])?;
+                            let mut v = Vec::new();
+                            f.read_to_end(&mut v)?;
+                            Ok(v)
+                        })?;
+                        ctl.lock().unwrap().faults_enabled = enabled;
+                        if let Ok(v) = got {
+                            if v.len() as u64 > before {
+                                if let Some(i) = v[before as usize..].iter().position(|&b| b != 0) {
+                                    return Err(Fail::new("write_fault|set_len_err|grown_nonzero", format!("set_len on {} failed but left the stream longer ({} -> {}), and byte {} of the gained range reads {:#x}", WNAMES[name], before, v.len(), before as usize + i, v[before as usize + i])));
+                                }
+                            }
+                        }
+                    }
                     // errors are allowed (later calls may fail); retry once
                 }
             }
